@@ -160,6 +160,13 @@ def run(c):
     brows.append({"e": "pub", "id": "many-callers-entries", "denials": mc["n"], "inFile": mc["entries"]})
     brows.append({"e": "pub", "id": "many-callers-last", "denials": 3, "inFile": mc["lastCaller"]})
     brows.append({"e": "pub", "id": "many-callers-first", "denials": 2, "inFile": mc["firstCaller"]})
+    # ... and the same four numbers read from the status.json the real ProxyAgentStatusTask publishes over that actor
+    if mc.get("fileEntries", -1) < 0:
+        raise util.ToolError("status_many_callers driver: no publication after the adds was read within 20 s: %s" % mc)
+    brows.append({"e": "pub", "id": "many-callers-file-total", "denials": mc["acked"], "inFile": mc["fileTotal"]})
+    brows.append({"e": "pub", "id": "many-callers-file-entries", "denials": mc["n"], "inFile": mc["fileEntries"]})
+    brows.append({"e": "pub", "id": "many-callers-file-last", "denials": 3, "inFile": mc["fileLastCaller"]})
+    brows.append({"e": "pub", "id": "many-callers-file-first", "denials": 2, "inFile": mc["fileFirstCaller"]})
     c.extra["many_callers"] = mc
     ok, why, res = validate_trace(c, "ProxyTrace", proxylib.write_cfg("C11", ["P_C11_PublishedInStatusFile"], "pubb"), brows, "c11_pubb",
                                   count=1, timeout=300)
